@@ -34,7 +34,8 @@ def r03_1(ck, F):
             "mpsc::Permit::send (the frame is queued by a call that cannot suspend or fail)",
             "send cancelled (future dropped at that Yield) while the shared event queue is full, or try_send "
             "hitting a full queue: the deducted credit is never spent nor returned, the port eventually wedges",
-            floor=7)
+            floor=5)
+    emit_api_coverage(ck, F)
     for path, b in emit_bodies(F):
         takes = sorted(bb for bb, _ in b.calls(TAKE))
         sends = {bb for bb, _ in b.calls(PERMIT_SEND)}
@@ -128,7 +129,7 @@ def r03_2(ck, F):
     ck.rule("R03.2", "in every emit loop of sender.rs the refill guard + min_req guarantee at least one unit of the "
             "per-iteration amount: lower bound of available() after the refill >= the divisor applied to it (1 if none)",
             "two ports sent with 5..7 credits left: first batch takes 4, 1..3 remain, refill is skipped because "
-            "credits are not empty, max_ports = 0 -> endless empty PortData frames (livelock)", floor=3)
+            "credits are not empty, max_ports = 0 -> endless empty PortData frames (livelock)", floor=2)
     for path, b in emit_bodies(F):
         backs = b.back_edges()
         heads = sorted({h for _, h in backs})
